@@ -218,6 +218,10 @@ func VerifGzHdrRead() {
 	vbStored(w, true, nil)
 	data := append(append(h, extra...), w.bytes()...)
 	data = append(data, 0, 0, 0, 0, 0, 0, 0, 0)
+	// the input may end anywhere (truncation inside every optional header field)
+	cut := verifrt.Int()
+	verifrt.Assume(cut >= 0 && cut <= len(data))
+	data = data[:verifrt.Concretize(cut)]
 	verifrt.ObserveBytes("data", data)
 	fz, ferr := NewReader(bytes.NewReader(data))
 	sz, serr := stdgzip.NewReader(bytes.NewReader(data))
@@ -423,4 +427,64 @@ func VerifGzFail() {
 	verifrt.Assert(vhPrefix(out, []byte("abc")), "C15:gzip-prefix")
 	k2, e2 := z.Read(make([]byte, 4))
 	verifrt.Assert(k2 == 0 && e2 == fault, "C15:gzip-sticky")
+}
+
+// vgFailSink fails at its k-th call, then keeps failing or recovers.
+type vgFailSink struct {
+	b       []byte
+	calls   int
+	failAt  int
+	err     error
+	failed  bool
+	recover bool
+}
+
+func (s *vgFailSink) Write(p []byte) (int, error) {
+	s.calls++
+	if s.failAt != 0 && s.calls >= s.failAt && !s.failed {
+		s.failed = true
+		return 0, s.err
+	}
+	if s.failed && !s.recover {
+		return 0, s.err
+	}
+	s.b = append(s.b, p...)
+	return len(p), nil
+}
+
+// VerifGzWrFail (C14, gzip): destination fails at its k-th call (header, body or trailer writes).
+func VerifGzWrFail() {
+	levels := [2]int{0, 1}
+	level := levels[verifrt.Pick("level", 2)]
+	K := verifrt.Param("K")
+	fault := verifrt.ErrValue("dst")
+	k := int(verifrt.U8())
+	verifrt.Assume(k >= 1 && k <= verifrt.Param("KMAX"))
+	sink := &vgFailSink{failAt: verifrt.Concretize(k), err: fault, recover: verifrt.Pick("recover", 2) == 1}
+	w, _ := NewWriterLevel(sink, level)
+	w.Name = "n"
+	for i := 0; i < K; i++ {
+		op := int(verifrt.U8())
+		verifrt.Assume(op < 3)
+		op = verifrt.Concretize(op)
+		was := sink.failed
+		before := sink.calls
+		var err error
+		switch op {
+		case 0:
+			_, err = w.Write([]byte("hello"))
+		case 1:
+			err = w.Flush()
+		case 2:
+			err = w.Close()
+		}
+		if was {
+			verifrt.Cover("op-after-failure")
+			verifrt.Assert(err != nil, "C14:gzip-not-sticky")
+			verifrt.Assert(sink.calls == before, "C14:gzip-destination-touched-after-failure")
+		} else if sink.failed {
+			verifrt.Cover("failure-reported")
+			verifrt.Assert(err == fault, "C14:gzip-failure-not-reported")
+		}
+	}
 }
